@@ -170,17 +170,21 @@ PROPS = {
                 "structure-aware corruptions of the crate's small 64-bit ELF and of generated 32-/64-bit, little-/big-endian images (every header, "
                 "program-header, section-header, note and dynamic field set to 0, 1, max, max-1, the image size ± 1, offsets at/over the end; "
                 "truncations at every structure boundary; class / data bytes flipped); and ELF files installed on the machine (60 quick / all, "
-                "about 1900, thorough), for which `readelf -n -d` is the independent reader. Distinct = (class+endianness, build-id strategy or "
+                "about 1900, thorough), for which `readelf -n -d` is the independent reader; well-formed images built from a specification (32/64 bit, "
+                "either byte order, notes / dynamic table reachable through program headers, sections or both, foreign notes first, 8-aligned "
+                "property segment, section names last in .shstrtab, segment bias) whose answers are known by construction; and the same generated "
+                "images loaded by a live target (whole, split r / r-x, first page only, r-x + rw) and read from its memory next to the answers from "
+                "the file. Distinct = (class+endianness, build-id strategy or "
                 "error chain, soname strategy or error chain, size bucket).",
         "expected_tags": ["kind.file", "class.64", "class.32", "endian.be", "header.err", "buildid.note", "buildid.section", "buildid.texthash", "buildid.err",
-                          "soname.phdr", "soname.section", "soname.err"],
+                          "soname.phdr", "soname.section", "soname.err", "kind.wellformed", "kind.proc", "proc.consistent"],
         "theorem_namespace": "Elf.",
         "extra_theorems": ["Elf.noteLoop_eq_find", "Elf.ptNoteLoop_eq", "Elf.dynCollect_eq", "Elf.foldl_dynUpd", "Elf.rdInt_lt", "Elf.memRead_ok", "Elf.parseHeader_err"],
         "trusted_base": ["goblin 0.9.3 / scroll 0.12 parsing rules as transcribed in Model/Elf.lean (header, program/section headers, Dyn, notes) — "
                          "tied to the real crates by the correspondence runs only",
                          "core::str::lossy (Utf8Chunks) transcribed case by case", "binutils readelf as the independent reader on installed files"],
-        "assumptions": ["slice mode (ProcessMemory::Slice): reading from a live process differs only in `absolute()` and in which of offset/address is used; "
-                        "that mode is exercised by the live module-list check (C08), not by these theorems",
+        "assumptions": ["the theorems are about reading a file / byte slice; reading from a live process (prefix reads, addresses instead of offsets) is "
+                        "modelled and compared with the implementation on live targets, and memory = file is checked where the image is loaded at matching offsets",
                         "the agreement theorems are stated over the parsed structure (what an independent reader lists), not over a serialiser of ELF files: partial"],
         "explanation": "C14 theorems over the Lean model of module_reader.rs + the goblin rules it relies on: totality (value or one of three error variants; "
                        "every loop structurally bounded by the window read; unchecked additions stay below 2^64), the build id equals the descriptor of "
